@@ -33,6 +33,15 @@ func runChildJSON(ctxTimeout time.Duration, unpriv bool, env []string, sub strin
 	cctx, cancel := context.WithTimeout(context.Background(), ctxTimeout)
 	defer cancel()
 	cmd := exec.CommandContext(cctx, self, "child", sub)
+	for _, e := range env {
+		if e == "VERIF_UNAME26=1" {
+			// environment answer: uname(2) reports an old release (UNAME26 personality, inherited by every thread) although the
+			// kernel is what it is - what reaches seccomp(2) must not depend on it
+			if sa, err := exec.LookPath("setarch"); err == nil {
+				cmd = exec.CommandContext(cctx, sa, "x86_64", "--uname-2.6", self, "child", sub)
+			}
+		}
+	}
 	cmd.Stdin = bytes.NewReader(b)
 	cmd.Env = append(os.Environ(), env...)
 	var so, se bytes.Buffer
@@ -124,6 +133,9 @@ func checkC10(tier, replay string) int {
 				for _, lm := range []bool{false, true} {
 					scripts = append(scripts, tsyncScript{Phases: v, Flags: fl, LoaderMain: lm, NNP: len(v)%2 == 0})
 					if len(v) <= 2 {
+						scripts = append(scripts, tsyncScript{Phases: v, Flags: fl, LoaderMain: lm, NNP: len(v)%2 == 0, Uname26: true})
+					}
+					if len(v) <= 2 {
 						// history: an earlier thread-sync load (policy B) covered everyone; the load under test must behave as its own
 						// flag word says (without thread-sync: nobody else gets the new filter)
 						scripts = append(scripts, tsyncScript{Phases: v, Flags: fl, LoaderMain: lm, NNP: false, PriorSync: true})
@@ -164,6 +176,9 @@ func checkC10(tier, replay string) int {
 		env := []string{}
 		if sc.LoaderMain {
 			env = append(env, "VERIF_LOCK_MAIN=1")
+		}
+		if sc.Uname26 {
+			env = append(env, "VERIF_UNAME26=1")
 		}
 		limit := 40 * time.Second
 		if len(sc.Phases) > 8 {
@@ -273,7 +288,7 @@ func checkC10(tier, replay string) int {
 	ctx.Cov["short_lived_threads_spawned_while_loading"] = spawnedDuring
 	ctx.Cov["single_bit_flag_words_checked"] = bits
 	ctx.Cov["thread_sync_refusals_reported_as_error"] = refused
-	ctx.Cov["rule"] = "states = (vector of user-visible phases of N other OS threads at the moment of the load: spinning, in nanosleep, blocked in read, blocked in futex, spawning short-lived threads) x flags {0,tsync,log,tsync|log} x loader on main / non-main thread; every vector for N<=2 (quick) / N<=3 (thorough) and homogeneous + mixed vectors for N=8 (and 64 thorough); each is run once on the real kernel through the real LoadFilter; after an atomic 'load returned' flag every thread (including three born afterwards) probes getppid and reads its own /proc status, and /proc/self/task is scanned; plus all 32 single-bit flag words observed at the syscall seam and, for the defined bits, in strace's decoding of seccomp(2)"
+	ctx.Cov["rule"] = "states = (vector of user-visible phases of N other OS threads at the moment of the load: spinning, in nanosleep, blocked in read, blocked in futex, spawning short-lived threads) x flags {0,tsync,log,tsync|log} x loader on main / non-main thread; every vector for N<=2 (quick) / N<=3 (thorough) and homogeneous + mixed vectors for N=8 (and 64 thorough); plus histories and environments for the small vectors (a preloaded filter, an earlier thread-sync load of another policy, a divergent thread, an outer filter answering ENOSYS to seccomp(2), the whole process under the UNAME26 personality so that uname(2) reports release 2.6.x); each is run once on the real kernel through the real LoadFilter; after an atomic 'load returned' flag every thread (including three born afterwards) probes getppid and reads its own /proc status, and /proc/self/task is scanned; plus all 32 single-bit flag words observed at the syscall seam and, for the defined bits, in strace's decoding of seccomp(2)"
 	ctx.Assumptions = []string{"the interleaving of seccomp(2) with other threads inside the kernel cannot be scheduled from user space; one run per phase vector", "phase of blocked threads is confirmed through /proc/<tid>/syscall immediately before the load is released"}
 	if replay != "" {
 		return finishReplay(ctx)
